@@ -9,6 +9,14 @@ built a second time and the same accesses are replayed in a shuffled (row, acces
 changes what another access returns.  Violations are delta-debugged (stages removed, source simplified) so that the
 signature names the smallest stage chain that still shows the same failure.
 
+The filters are reusable objects: in a share of the cases the SAME stage objects also process a *prior table* of a
+different layout (columns moved, header names changed, wider / narrower, other column types, another row class, dense
+lists <-> dicts keyed 0..n-1) completely before, set up before and consumed after, or after the judged table is read,
+and/or the second build re-reads the judged table through the first build's objects.  The prior table is derived from
+the judged source column-wise and is used only when the eager model accepts the whole stage chain on it; the judged
+table's rows must still equal the eager model (`reuse.differs.*` counts per stage kind how often the two tables make
+the filter object resolve something different: width, position of a name, key of a position, categorical columns).
+
 Header maps need not name every column (HeadRows with a Mapping/Sequence naming a subset, a CSV header line shorter
 than its data lines), and on sparse rows keyed by header name (sparse ARFF, dicts + HeadRows) the label may be given
 by position through any stack of views; `domain_features` counts how often those shapes reach each kind of stage.
@@ -25,10 +33,13 @@ RULE  = ("seeded (table, pipeline, access script) triples: table in {dense list/
          "of 0-6 stages from HeadRows(seq/map/permuted map/map or sequence naming only some columns), EncodeRows(seq/map "
          "by index/name), DropRows(cols by index/name, row predicates), LabelRows(index/name; on sparse rows keyed by "
          "header name also by position through any stack of views), EncodeCatRows(onehot/onehot_tuple/string); 10-24 accesses "
-         "per row replayed in two orders on two independent builds. A case is distinct by (layout, source kind, stage "
-         "chain with variants, label-parts-checked?); non-trivial = at least one surviving row with at least one column "
+         "per row replayed in two orders on two builds; in ~30% of the cases with stages the same filter objects also process "
+         "a prior table derived from the judged one (columns moved / renamed / added / removed / re-typed, other rows, other "
+         "row class, or the other layout) before / around / after reading the judged table, in ~15% the second build re-reads "
+         "through the first build's filter objects. A case is distinct by (layout, source kind, stage "
+         "chain with variants, label-parts-checked?, sharing history with the kinds of difference); non-trivial = at least one surviving row with at least one column "
          "behind at least one lazy wrapper")
-PLAN  = {"quick":    {"shards": 16, "cases": 160000,  "timeout": 600,  "budget_s": 80},
+PLAN  = {"quick":    {"shards": 16, "cases": 144000,  "timeout": 600,  "budget_s": 80},
          "thorough": {"shards": 16, "cases": 6400000, "timeout": 3000, "budget_s": 800}}
 REQUIRED = ["oracle.dense.pos", "oracle.dense.name", "oracle.dense.iter", "oracle.dense.len", "oracle.dense.eq",
             "oracle.dense.neq", "oracle.dense.eqrow", "oracle.dense.f_iter", "oracle.dense.f_len", "oracle.dense.f_pos",
@@ -40,7 +51,12 @@ REQUIRED = ["oracle.dense.pos", "oracle.dense.name", "oracle.dense.iter", "oracl
             "stage.cat", "source.arff_lazy", "source.arff_text", "source.lazy_loader", "source.csv_text",
             "domain.partial-headers.source", "domain.partial-headers.head", "domain.partial-headers.encode-map",
             "domain.partial-headers.encode-seq", "domain.partial-headers.dropcols", "domain.partial-headers.label",
-            "domain.sparse-headers.label-by-pos", "domain.sparse-headers.view.label-by-pos"]
+            "domain.sparse-headers.label-by-pos", "domain.sparse-headers.view.label-by-pos",
+            "reuse.prior", "reuse.prior-read", "reuse.when.before", "reuse.when.pending", "reuse.when.after", "reuse.reread",
+            "reuse.prior.cols-moved", "reuse.prior.names-changed", "reuse.prior.wider", "reuse.prior.narrower",
+            "reuse.prior.types-changed", "reuse.prior.other-source", "reuse.prior.cross-layout",
+            "reuse.differs.head", "reuse.differs.encode", "reuse.differs.drop", "reuse.differs.label", "reuse.differs.cat",
+            "reuse.differs.label.dense-by-name", "reuse.differs.label.sparse-by-pos"]
 ASSUMPTIONS = [
     "only keys that exist in the eager model are accessed: positions 0..len-1, header names that survive, sparse keys present in the model row; negative positions, dropped names and out-of-range positions are never used",
     "feats/label are only checked when no column-changing stage follows LabelRows (row-only DropRows may follow); feats is compared by iteration, length, position/key access and equality, never by header name on dense rows",
@@ -51,6 +67,7 @@ ASSUMPTIONS = [
     "EncodeCatRows is only applied when every categorical column holds a Categorical in every surviving row (no missing cells); what feats/label/headers mean after it is not asserted (its output rows are plain lists/dicts)",
     "numbers are compared with == (0 vs 0.0 equal), Categorical vs str and None vs anything are distinguished; list vs tuple is not",
     "ARFF text is generated in the plainest dialect (no quotes, no comments); dialect questions belong to C12",
+    "a prior table is given to the shared filter objects only when the eager model accepts every stage of the chain on it (each stage is a legal use there) and at least one of its rows reaches the end; what the pipeline yields for the prior table is not judged in that case (every such table is a case of its own), only the judged table's rows are",
 ]
 
 DENSE_KINDS  = ["pos", "pos", "pos", "name", "name", "iter", "len", "eq", "neq", "eqrow",
@@ -249,6 +266,144 @@ def gen_pred(rng, st):
     k = rng.choice(list(st.universe)) if st.universe else None
     return None if k is None else {"p": "haskey", "key": k}
 
+# ---- prior tables: another table, of a different layout, that the SAME filter objects process before / while / after the
+# judged one.  It is derived from the judged source column-wise (so that stages naming columns stay legal on it) and is
+# only used when the eager model accepts the whole stage chain on it and leaves at least one row.
+REUSE_OPS = ["cols-moved", "cols-moved", "names-changed", "names-changed", "wider", "narrower", "types-changed",
+             "other-source", "cross-layout"]
+_ZERO = {"istr": "0", "fstr": "0", "word": "0", "int": 0, "float": 0, "cat": "0", "cat2": "0"}
+
+def _norm_t(t): return "numeric" if t in ("real", "integer") else t
+
+def _family(layout, src):
+    k = src["kind"]
+    return "arff" if k.startswith("arff") else "csv" if k == "csv_text" else "plain" if layout == "dense" else "dict"
+
+def _cols_of(layout, src):
+    """the source as a list of columns {name|key, type|zero, cells: {row index: cell}}"""
+    kind, rows = src["kind"], src["rows"]
+    n = len(rows)
+    if kind.startswith("arff"):
+        cols = [{"name": a[0], "type": a[1], "cells": {}} for a in src["attrs"]]
+        for r, row in enumerate(rows):
+            for i, t in (enumerate(row) if layout == "dense" else row): cols[i]["cells"][r] = t
+        return cols, n
+    if layout == "dense":
+        hdr = src.get("header") if kind == "csv_text" else None
+        return [{"name": hdr[i] if hdr is not None and i < len(hdr) else None, "cells": {r: rows[r][i] for r in range(n)}}
+                for i in range(len(rows[0]))], n
+    cols = [{"key": k, "zero": z, "cells": {}} for k, z in src["cols"]]
+    idx = {c["key"]: c for c in cols}
+    for r, pairs in enumerate(rows):
+        for k, v in pairs: idx[k]["cells"][r] = v
+    return cols, n
+
+def _fill_col(rng, fam, col, rows):
+    """(re)generates the type and the cells of one column for the given row indices; keeps its name/key"""
+    if fam == "arff":
+        t = rng.choice(["numeric", "string", "{a,b,c}", "{u,v}", "integer"])
+        col["type"] = t; col["cells"] = {r: _gen_tok(rng, _norm_t(t), 0) for r in rows}
+    elif fam == "csv":
+        k = rng.choice(["istr", "fstr", "cword"]); col["cells"] = {r: _gen_cell(rng, k) for r in rows}
+    else:
+        k = rng.choice(["istr", "fstr", "int", "float", "word", "cat", "cat2"])
+        col["zero"] = _ZERO[k]; col["cells"] = {r: _gen_cell(rng, k) for r in rows}
+    return col
+
+def _fresh_names(rng, cols, k):
+    used = {c.get("name") for c in cols} | {c.get("key") for c in cols}
+    return rng.sample([n for n in NAMES + [n + "9" for n in NAMES] if n not in used], k)
+
+def vary_source(rng, layout, src, ops):
+    """-> (layout', source', ops applied) : the judged source with its columns moved / renamed / added / removed /
+    re-typed, other rows, possibly another row class or the other layout (dense lists <-> dicts keyed 0..n-1)"""
+    fam, kind = _family(layout, src), src["kind"]
+    dense = layout == "dense"
+    cols, n = _cols_of(layout, src)
+    loader = src.get("loader", True)
+    tags = []
+    for op in sorted(set(ops), key=lambda o: o == "cross-layout"):       # the layout switch comes last
+        if op == "cols-moved":
+            if len(cols) < 2: continue
+            if fam == "csv":                                 # the names of a CSV header line are a prefix of the columns
+                a = [c for c in cols if c["name"] is not None]; b = [c for c in cols if c["name"] is None]
+                rng.shuffle(a); rng.shuffle(b); new = a + b
+            else:
+                new = cols[:]; rng.shuffle(new)
+            if all(x is y for x, y in zip(new, cols)): continue
+            if fam == "dict": new = [dict(c, key=o["key"]) for c, o in zip(new, cols)]     # the data moves under other keys
+            cols = new
+        elif op == "names-changed":
+            named = [c for c in cols if isinstance(c.get("name", c.get("key")), str)]
+            if not named: continue
+            pick = rng.sample(named, rng.randint(1, len(named)))
+            for c, nn in zip(pick, _fresh_names(rng, cols, len(pick))):
+                c["key" if fam == "dict" else "name"] = nn
+        elif op == "wider":
+            if len(cols) >= 9: continue
+            rows = [r for r in range(n) if dense or rng.random() < .6]
+            if fam == "dict":
+                ints = all(isinstance(c["key"], int) for c in cols)
+                key = max([c["key"] for c in cols], default=-1) + 1 if ints else _fresh_names(rng, cols, 1)[0]
+                cols.append(_fill_col(rng, fam, {"key": key}, rows))
+            else:
+                name = _fresh_names(rng, cols, 1)[0] if fam == "arff" or (fam == "csv" and all(c["name"] is not None for c in cols) and src.get("header") is not None) else None
+                lo = sum(c["name"] is not None for c in cols) if fam == "csv" and name is None else 0
+                cols.insert(rng.randint(lo, len(cols)), _fill_col(rng, fam, {"name": name}, rows))
+        elif op == "narrower":
+            if len(cols) < 2: continue
+            cols.pop(rng.randrange(len(cols)))
+        elif op == "types-changed":
+            if not cols: continue
+            c = rng.choice(cols); _fill_col(rng, fam, c, sorted(c["cells"]))
+        elif op == "other-source":
+            if fam == "csv": continue
+            if fam == "arff":
+                if any(c["type"].startswith("x:") for c in cols): loader = not loader
+                else: kind = "arff_text" if kind == "arff_lazy" else "arff_lazy"
+            else:
+                kind = rng.choice([k for k in (["list", "tuple", "lazy", "lazy_loader"] if dense else ["dict", "lazy", "lazy_loader"]) if k != kind])
+        elif op == "cross-layout":
+            if fam == "plain":
+                p = rng.choice([.6, .9, 1.0])
+                cols = [{"key": i, "zero": "0" if isinstance(next(iter(c["cells"].values()), 0), (str, dict)) else 0,
+                         "cells": {r: v for r, v in c["cells"].items() if v is not None and rng.random() < p}} for i, c in enumerate(cols)]
+                fam, dense, layout, kind = "dict", False, "sparse", rng.choice(["dict", "lazy", "lazy_loader"])
+            elif fam == "dict" and sorted(c["key"] for c in cols if isinstance(c["key"], int)) == list(range(len(cols))):
+                cols = [{"name": None, "cells": {r: c["cells"].get(r, c["zero"]) for r in range(n)}} for c in sorted(cols, key=lambda c: c["key"])]
+                fam, dense, layout, kind = "plain", True, "dense", rng.choice(["list", "tuple", "lazy", "lazy_loader"])
+            else: continue
+        else: raise ValueError(op)
+        tags.append(op)
+    sel = list(range(n)) if rng.random() < .5 else [rng.randrange(n) for _ in range(rng.choice([1, 2, 2, 3, 4]))]
+    if fam == "arff":
+        out = {"kind": kind, "attrs": [[c["name"], c["type"]] for c in cols], "loader": loader}
+        if dense: out["rows"] = [[c["cells"][r] for c in cols] for r in sel]
+        else: out["rows"] = [[[i, c["cells"][r]] for i, c in enumerate(cols) if r in c["cells"]] for r in sel]
+    elif fam == "csv":
+        out = {"kind": kind, "header": None if src.get("header") is None else [c["name"] for c in cols if c["name"] is not None],
+               "rows": [[c["cells"][r] for c in cols] for r in sel]}
+    elif fam == "plain":
+        out = {"kind": kind, "rows": [[c["cells"][r] for c in cols] for r in sel]}
+    else:
+        out = {"kind": kind, "cols": [[c["key"], c["zero"]] for c in cols],
+               "rows": [[[c["key"], c["cells"][r]] for c in cols if r in c["cells"]] for r in sel]}
+    return layout, out, tags
+
+def prior_ok(prior, stages):
+    """every stage is legal on the prior table (the eager model accepts the chain) and at least one row reaches the end"""
+    try: st = M.run_model({"layout": prior["layout"], "source": prior["source"], "stages": stages})
+    except Exception: return False                          # Invalid, or a stage spec that has no meaning in the other layout
+    return bool(st.rows)
+
+def gen_prior(rng, layout, src, stages, ops=None, attempts=8):
+    for _ in range(attempts):
+        pl, psrc, tags = vary_source(rng, layout, src, ops or rng.sample(REUSE_OPS, rng.choice([1, 1, 2, 2, 3])))
+        if not tags: continue
+        prior = {"layout": pl, "source": psrc, "tags": sorted(tags), "when": rng.choice(["before", "before", "pending", "after"])}
+        if prior_ok(prior, stages): return prior
+    return None
+
 def gen_case(rng):
     layout = "dense" if rng.random() < .5 else "sparse"
     for _ in range(20):
@@ -275,14 +430,45 @@ def gen_case(rng):
     script = [[rng.choice(kinds), rng.randrange(1 << 16)] for _ in range(rng.randint(8, 20))]
     script += [[k, rng.randrange(1 << 16)] for k in (["iter", "len", "pos", "pos", "name"] if layout == "dense" else ["items", "iter", "len", "key", "key"])]
     rng.shuffle(script)
-    return {"layout": layout, "source": src, "stages": stages, "script": script, "perm": rng.randrange(1 << 30)}
+    spec = {"layout": layout, "source": src, "stages": stages, "script": script, "perm": rng.randrange(1 << 30)}
+    if stages and rng.random() < .3:                         # the same filter objects also process another table
+        prior = gen_prior(rng, layout, src, stages)
+        if prior: spec["prior"] = prior
+    if stages and rng.random() < .15: spec["second"] = "same" # the second build re-reads through the first build's filter objects
+    return spec
 
 # ------------------------------------------------------------------------------------------ real side
-def build_real(spec):
-    rows = M.real_source(spec["layout"], spec["source"])
-    for s in spec["stages"]:
-        rows = M.real_filter(spec["layout"], s).filter(rows)
-    return list(rows)
+def _drain(rows):
+    """consumes a pipeline the way a reader of the table would; what it yields is not judged here"""
+    try:
+        for row in rows:
+            if hasattr(row, "items"): dict(row.items())
+            else: list(row)
+            if hasattr(row, "labeled"): row.labeled
+        return True
+    except Exception:
+        return False
+
+def build_real(spec, filters=None, ctx=None):
+    """-> (rows of the judged table, the filter objects).  One filter object per stage; with spec['prior'] the same
+    objects also process the prior table: completely before the judged table ('before'), with their pipeline set up
+    before and consumed after the judged table was read ('pending'), or after the judged table was read but before
+    its rows are accessed ('after')."""
+    if filters is None: filters = [M.real_filter(spec["layout"], s) for s in spec["stages"]]
+    def pipe(layout, source):
+        rows = M.real_source(layout, source)
+        for f in filters: rows = f.filter(rows)
+        return rows
+    prior = spec.get("prior")
+    when = prior["when"] if prior else None
+    ok = True
+    if when == "before": ok = _drain(pipe(prior["layout"], prior["source"]))
+    if when == "pending": pending = pipe(prior["layout"], prior["source"])
+    rows = list(pipe(spec["layout"], spec["source"]))
+    if when == "pending": ok = _drain(pending)
+    if when == "after": ok = _drain(pipe(prior["layout"], prior["source"]))
+    if ctx and prior: ctx.count("reuse.prior-read" if ok else "reuse.prior-raised")
+    return rows, filters
 
 def resolve(spec, st):
     """turns the abstract script into concrete accesses per surviving model row, with the model's answer"""
@@ -377,12 +563,13 @@ def check_core(spec, ctx=None):
     out = []
     dense = spec["layout"] == "dense"
     st = M.run_model(spec)                                   # may raise Invalid (only for hand-edited / shrunk specs)
+    if spec.get("prior") and not prior_ok(spec["prior"], spec["stages"]): raise Invalid("a stage is not legal on the prior table")
     plan = resolve(spec, st)
     def note(n, k=1):
         if ctx: ctx.count(n, k)
     # ---- first build: row-major order
     try:
-        real = build_real(spec)
+        real, filters = build_real(spec, None, ctx)
     except Exception as e:
         return [("build", f"raise:{type(e).__name__}", f"building/iterating the pipeline raised {type(e).__name__}: {e}")]
     if any(s["k"] == "drop" and s.get("pred") for s in spec["stages"]): note("oracle.rowpred")
@@ -404,7 +591,7 @@ def check_core(spec, ctx=None):
                     out.append((acc[0], mode, f"row {ri} access {acc[0]}({acc[1]!r}): lazy {got[1:]!r} != eager {acc[2]!r}; wrappers={M.chain_of(real[ri])}"))
     # ---- second, independent build: shuffled (row, access) order
     try:
-        real2 = build_real(spec)
+        real2, _ = build_real(spec, filters if spec.get("second") == "same" else None)
     except Exception as e:
         return out + [("build", f"second-build-raise:{type(e).__name__}", f"second build raised {e}")]
     if len(real2) != len(plan):
@@ -491,9 +678,82 @@ def src_tag(spec):
     return {"list": "plain", "tuple": "plain", "dict": "plain", "lazy": "lazy", "lazy_loader": "lazy",
             "arff_lazy": "arff", "arff_text": "arff", "csv_text": "csv"}[k]
 
+def reuse_tag(spec):
+    """the sharing history, for the case key: when the prior table is processed and how it differs"""
+    parts = []
+    if spec.get("prior"): parts.append(f"prior-{spec['prior']['when']}:" + ("+".join(spec["prior"]["tags"]) or "same-layout"))
+    if spec.get("second") == "same": parts.append("reread")
+    return ",".join(parts)
+
+def reuse_sig(spec):
+    """the sharing history, for a signature: when the prior table is processed and which stage kinds have to resolve
+    something else on it than on the judged table (not how the generator happened to derive it)"""
+    parts = []
+    prior = spec.get("prior")
+    if prior:
+        if prior["layout"] != spec["layout"]: diff = "other-layout"
+        else:
+            try: d = sorted(f[8:] for f in reuse_features(spec) if f.startswith("differs.") and f.count(".") == 1)
+            except Exception: d = ["?"]
+            diff = "differs=" + ("+".join(d) or "nothing")
+        parts.append(f"prior-{prior['when']}:{diff}")
+    if spec.get("second") == "same": parts.append("reread")
+    return ",".join(parts)
+
+def _unshared(spec): return {k: v for k, v in spec.items() if k not in ("prior", "second")}
+
+def _fails_shared_only(spec):
+    try: return bool(check_core(spec)) and not check_core(_unshared(spec))
+    except Exception: return False
+
+def shrink_reuse(spec, kind, mode, budget=80):
+    """a failure that needs the filter objects to be shared: keeps only the sharing and the stages the failure needs"""
+    def fails(c):
+        nonlocal budget
+        budget -= 1
+        return _fails(c, kind, mode)
+    if spec.get("prior") and spec.get("second") == "same":
+        for drop in ("second", "prior"):
+            cand = {k: v for k, v in spec.items() if k != drop}
+            if fails(cand): spec = cand; break
+    changed = True
+    while changed and budget > 0:
+        changed = False
+        for i in range(len(spec["stages"]) - 1, -1, -1):
+            cand = dict(spec, stages=spec["stages"][:i] + spec["stages"][i+1:])
+            if fails(cand): spec = cand; changed = True; break
+    if spec.get("prior") and spec["prior"]["when"] != "before":  # the plainest history that shows it
+        cand = dict(spec, prior=dict(spec["prior"], when="before"))
+        if fails(cand): spec = cand
+    return spec
+
+def reuse_report(spec):
+    # every access kind is replayed, so that the stage where the tables part ways is found whatever the script asked for
+    kinds = DENSE_KINDS if spec["layout"] == "dense" else SPARSE_KINDS
+    spec = dict(spec, script=spec["script"] + [[k, 7 + 13 * i] for i, k in enumerate(dict.fromkeys(kinds))])
+    for j in range(len(spec["stages"])):                      # shortest prefix that fails only when shared
+        cand = dict(spec, stages=spec["stages"][:j])
+        if _fails_shared_only(cand): spec = cand; break
+    res = check_core(spec)
+    out = []
+    for kind, mode, what in _pick(res):
+        small = shrink_reuse(spec, kind, mode)
+        tags = [stage_tag(s) for s in small["stages"]]
+        chain = (">".join(tags) if len(tags) <= 2 else f"{tags[0]}>..>{tags[-1]}") or "-"
+        sig = f"{spec['layout']}/{src_tag(small)}/{chain}/{kind}/mode={mode}/shared-filters[{reuse_sig(small)}]"
+        out.append((sig, what + f" || only when the filter objects are shared; minimal: source={small['source']} stages={small['stages']} "
+                               f"prior={small.get('prior')} second={small.get('second', 'fresh')}"))
+    return out
+
 def check_case(spec, ctx=None):
     res = check_core(spec, ctx)
     if not res: return []
+    if spec.get("prior") or spec.get("second") == "same":
+        plain = {k: v for k, v in spec.items() if k not in ("prior", "second")}
+        try: rp = check_core(plain)
+        except Exception: rp = []
+        if not rp: return reuse_report(spec)                 # the failure needs the filter objects to be shared
+        spec, res = plain, rp                                # it does not: reported as the plain pipeline's failure
     # shortest failing prefix
     for j in range(len(spec["stages"])):
         sub = dict(spec, stages=spec["stages"][:j])
@@ -537,15 +797,34 @@ def domain_features(spec):
     if st.label is None: st.feats_ok = False
     return st, feats
 
+def reuse_features(spec):
+    """which kinds of shared-filter histories the case exercises, and for which stage kinds the two tables make the
+    filter object resolve something different (width, position of a name, key of a position, categorical columns)"""
+    feats = set()
+    if spec.get("second") == "same": feats.add("reread")
+    prior = spec.get("prior")
+    if not prior: return feats
+    feats.add("prior"); feats.add("when." + prior["when"])
+    for t in prior["tags"]: feats.add("prior." + t)
+    a = M.model_source(spec["layout"], spec["source"]); b = M.model_source(prior["layout"], prior["source"])
+    for s in spec["stages"]:
+        ra, rb = M.resolution(a, s), M.resolution(b, s)
+        if ra is not None and rb is not None and ra != rb:
+            feats.add("differs." + s["k"])
+            if s["k"] == "label": feats.add("differs.label." + a.layout + ("-by-pos" if s.get("via") == "pos" else "-by-name" if isinstance(s["key"], str) and a.layout == "dense" else ""))
+        a = M.apply_stage(a, s); b = M.apply_stage(b, s)
+    return feats
+
 def run_shard(ctx):
     i = 0
     while i < ctx.n and ctx.time_left() > 0:
         spec = gen_case(ctx.rng)
         st, dfeats = domain_features(spec)
         for f in dfeats: ctx.count("domain." + f)
+        for f in reuse_features(spec): ctx.count("reuse." + f)
         tags = tuple(stage_tag(s) + ":" + str(s.get("form", "")) for s in spec["stages"])
         nontrivial = bool(st.alive_rows()) and st.ncols_any() > 0 and (bool(spec["stages"]) or spec["source"]["kind"] not in ("list", "tuple", "dict"))
-        ctx.case((spec["layout"], spec["source"]["kind"], tags, st.feats_ok), nontrivial=nontrivial)
+        ctx.case((spec["layout"], spec["source"]["kind"], tags, st.feats_ok, reuse_tag(spec)), nontrivial=nontrivial)
         ctx.count("source." + spec["source"]["kind"])
         for s in spec["stages"]: ctx.count("stage." + s["k"])
         if i < 2: ctx.sample({"layout": spec["layout"], "source": spec["source"], "stages": spec["stages"], "script": spec["script"][:6]})
